@@ -36,6 +36,8 @@ def dump(v):
     """python value -> the harness' canonical dump"""
     if v is ERR:
         return "ERR"
+    if isinstance(v, Some):
+        return "(none)" if v.v is None else f"(some {dump(v.v)})"
     if isinstance(v, bool):
         return "(bool true)" if v else "(bool false)"
     if isinstance(v, int):
@@ -57,6 +59,11 @@ def parse_model(s):
         return "FUEL"
     if not s.startswith("ok "):
         return "?" + s
+    if s == "ok none":
+        return "(none)"
+    if s.startswith("ok some "):
+        inner = parse_model("ok " + s[8:])
+        return inner if inner.startswith("?") else f"(some {inner})"
     toks = s[3:].replace("(", " ( ").replace(")", " ) ").replace("[", " [ ").replace("]", " ] ").split()
     pos = [0]
 
@@ -358,7 +365,25 @@ def consume(kind, arg, g):
             if i == arg:
                 return x, ctx
         return ERR, ctx
+    if kind == "nth":
+        k, (_, _, pred) = arg
+        if k < 0:
+            return ERR, ctx
+        for x in it:
+            r = pred(ctx, x)
+            if r is ERR:
+                return ERR, ctx
+            if r:
+                if k == 0:
+                    return Some(x), ctx
+                k -= 1
+        return Some(None), ctx
     raise ValueError(kind)
+
+
+class Some:
+    def __init__(self, v):
+        self.v = v
 
 
 # ------------------------------------------------------------------------------------------ pipelines
@@ -598,10 +623,24 @@ def gen_case(rng, max_ops):
         cons, arg, call = "len", None, "len()"
     elif k < 0.9:
         cons, arg, call = "last", None, "last()"
-    else:
+    elif k < 0.95 or p.ty == SEQ:
         arg = rng.choice([0, 1, 2, 3, 5, 9, -1])
         cons, call = "get", f"get({lit(arg)})"
+    else:
+        idx = rng.choice([0, 0, 1, 2, 4, -1])
+        pr = gen_pred(rng, p.ty, getattr(p, "errmode", False))
+        arg = (idx, pr)
+        cons, call = "nth", f"nth({lit(idx)}, {pr[0]})"
     return p, cons, arg, call
+
+
+def cons_name(cons, arg):
+    """the consumer as the model driver spells it"""
+    if arg is None:
+        return cons
+    if cons == "nth":
+        return f"nth:{arg[0]}:{arg[1][1]}"
+    return f"{cons}:{arg}"
 
 
 def run_cases(cases):
@@ -610,8 +649,7 @@ def run_cases(cases):
     for p, cons, arg, call in cases:
         src = f"let g = {p.src};\nlet a = g.{call};\nlet b = g.{call};\n"
         reqs.append({"op": "run", "src": src, "get": ["a", "b"], "limits": {"search": SEARCH, "ud_calls": UD_CALLS}})
-        c = cons if arg is None else f"{cons}:{arg}"
-        mlines.append(f"gen {c} {SEARCH} {FUEL} " + " ".join(p.toks))
+        mlines.append(f"gen {cons_name(cons, arg)} {SEARCH} {FUEL} " + " ".join(p.toks))
     impl = run_harness(reqs, per_req_timeout=WATCHDOG)
     model = run_model(mlines)
     out = []
@@ -733,7 +771,7 @@ def run(chk):
         chk.count("oracle:" + ("diverge" if res[4] is None else ("err" if res[4] == "ERR" else "value")))
         chk.count("impl:" + (res[0] if res[0] in ("ERR", "VIOL", "PANIC", "HANG") else "value"))
         if len(p.ops) >= 3:
-            chk.nontrivial.add(tuple(p.toks) + (cons, arg))
+            chk.nontrivial.add(tuple(p.toks) + (cons_name(cons, arg),))
         v = verdict(case, res)
         if v is None:
             continue
@@ -754,7 +792,7 @@ def run(chk):
         sig = "+".join(sorted(set(p.ops)))
         src = f"let g = {p.src}; let a = g.{call}; let b = g.{call};"
         replay = {"src": src, "get": ["a", "b"], "limits": {"search": SEARCH, "ud_calls": UD_CALLS},
-                  "model": f"gen {cons if arg is None else cons + ':' + str(arg)} {SEARCH} {FUEL} " + " ".join(p.toks),
+                  "model": f"gen {cons_name(cons, arg)} {SEARCH} {FUEL} " + " ".join(p.toks),
                   "expected": res[4], "got": res[0], "got_second": res[1], "model_out": res[3]}
         key = ("corpus:" + str(i) if i < len(fixed) else "pipe:" + sig) + ":" + cons + ":" + kind
         chk.violation(("tie:" + key) if kind in ("tie", "harness") else key, f"{src}  — {text}", replay,
